@@ -319,12 +319,12 @@ func isIntegerOrArithmeticOperation(node ast.Node) bool {
 	case *ast.UnaryNode:
 		switch n.Operator {
 		case "+", "-":
-			return true
+			return isIntegerOrArithmeticOperation(n.Node)
 		}
 	case *ast.BinaryNode:
 		switch n.Operator {
 		case "+", "/", "-", "*":
-			return true
+			return isIntegerOrArithmeticOperation(n.Left) && isIntegerOrArithmeticOperation(n.Right)
 		}
 	}
 	return false
